@@ -1073,6 +1073,8 @@ namespace chaiscript {
         if (t_s.call_depth == 0) {
           t_s.call_params.back().clear();
           m_conversions.enable_conversion_saves(t_saves, false);
+          // conversions made while unwinding from the outermost call have no call left to adopt them
+          t_saves.saves.clear();
         }
         CHAISCRIPT_VERIF_EVENT("fc-",
                                &t_s,
